@@ -105,8 +105,9 @@ PROPS = {
              expect_probes=[], cells_total={"fail": 140}),
     "C18": P("exploration",
              "seeded thread plans: 2-4 tasks (thorough to 16) each with 3-8 operations, either through one shared descriptor (decode/reconstruct/query/encode), or creating, using and destroying their own instances (first-ever and subsequent creates, mixed backends, RS instances sharing GF tables), or both; "
-             "a seeded scheduler (uniform random walk, sticky, PCT depth 1-3, run-to-completion with 1-3 preemptions) decides which parked thread runs at every yield point (operation boundaries, library lock operations, guarded hook sites at registry / counter / GF-table accesses); "
-             "results compared with sequential truth, vector-clock happens-before check over the annotated accesses, ASan, deadlock and yield-budget detection",
+             "a third of the shared plans give every thread the same loss set (rare decoder paths are then taken by all), some creates have a failing backend init, some queries read byte-swapped twins; "
+             "a seeded scheduler (uniform random walk, sticky, PCT depth 1-3, run-to-completion with 1-3 preemptions; rwlock reader- or writer-preferring per run) decides which parked thread runs at every yield point (operation boundaries, library lock operations, guarded hook sites at registry / counter / GF-table accesses, every primitive of the libisal stand-in, and - ThreadSanitizer pass - every atomic operation of the library); "
+             "results compared with sequential truth, vector-clock happens-before check over the annotated accesses, ASan, deadlock, lock-leak and yield-budget detection; second pass on a ThreadSanitizer build of the library",
              (12000, 45), (400000, 900), ["the vector-clock detector sees only the annotated shared state (registry list, instance idesc, descriptor counter, GF tables); unannotated shared state is covered by the second pass: the same seeded schedules on a ThreadSanitizer build of the library (harness and hand-off uninstrumented, simulated locks forwarded to the real ones), plus the result oracle and ASan",
                                          "the lock primitive is the simulator's (the locking protocol is the library's)", ISAL_ASSUME],
              expect_probes=["hook.registry.list", "hook.galois.tables", "hook.galois.counter", "canary.match", "get.within-tolerance"],
